@@ -131,6 +131,9 @@ type StepObs struct {
 	OK        bool
 	Err       string
 	Transfers []stg.Transfer
+	Sender    string // real txn.ClientID
+	Func      string // real function name
+	Value     uint64 // real txn.Value
 	Model     string // Gallina op term
 	Post      *Snap
 }
